@@ -250,7 +250,7 @@ def main() -> int:
         payload.update(tape=tape, n_ops=n_ops, detail=v2["detail"], log=best["log"], log_digest=best["log_digest"], texts=best.get("texts"), kinds=best.get("kinds"), replays_exactly=bool(again and again["log_digest"] == best["log_digest"]))
         reported.append((v2, harness.write_replay(PROP, seed, payload)))
     # ---- evidence
-    agg = {"cancel_armed": 0, "io_faults": 0, "clock_jumps": 0, "tz_changes": 0, "observations": 0, "alternations": 0}
+    agg = {"cancel_armed": 0, "io_faults": 0, "clock_jumps": 0, "tz_changes": 0, "env_changes": 0, "observations": 0, "alternations": 0}
     fired: dict[str, int] = {}
     ops: dict[str, int] = {}
     distinct = set()
@@ -282,6 +282,7 @@ def main() -> int:
         "report_write_faults_armed": agg["io_faults"],
         "clock_jumps": agg["clock_jumps"],
         "tz_changes": agg["tz_changes"],
+        "process_state_changes_cwd_locale_logging_random_recursion_decimal": agg["env_changes"],
         "text_alternations": agg["alternations"],
         "steps_executed": steps,
         "runs_per_hour": int(len(done) / max(wall_s, 1e-6) * 3600),
